@@ -450,9 +450,107 @@ def check_hist(case, t):
     t.outcome(("hist", len(case["script"]), case["script"][0]))
 
 
+
+# ---------------------------------------------------------------------------
+# same calendar reading under different time-scale labels, consecutively
+
+SCALES = ["UTC", "TT", "TDB", "TAI"]
+SCALE_DATES = [(57082, 0.0), (53005, 43200.5)]
+
+
+def check_scales(case, t):
+    """The same pair converted consecutively at dates with identical (MJD, seconds) readings but different scale labels:
+    each result is the chained-segment vector at that date's own TDB instant."""
+    from beyond.dates import Date
+    from beyond.orbits import Orbit
+    from beyond.env import jpl
+
+    if _G.get("mode") != case["config"]["jpl"]:
+        raise RuntimeError("wrong worker configuration")
+    a, b = case["target"], case["center"]
+    names = _G["names"]
+    clause = ("frames from SPK files reproduce the chained segments at the TDB instant of the date given, "
+              "whatever its scale label and whatever was converted before")
+    sc = np.array(SPACECRAFT)
+    for scale in case["scales"]:
+        d = Date(case["mjd"], case["sec"], scale=scale)
+        jd = d.change_scale("TDB").jd
+        try:
+            if case["route"] == "pair":
+                if a == 0:
+                    o = Orbit(np.zeros(6), d, "cartesian", names[a], None)
+                else:
+                    o = jpl.get_orbit(names[a], d)
+                x = o.copy(frame=names[b])
+                ref, (tp, tv), _ = _ref_pair(a, b, jd)
+            else:
+                # spacecraft state given in frame a, converted to frame b
+                x = Orbit(sc, d, "cartesian", names[a], None).copy(frame=names[b])
+                ref, (tp, tv), _ = _ref_pair(a, b, jd, start=a)
+                ref = ref + sc
+                tp += 16 * 2.2e-16 * np.linalg.norm(ref[:3])
+                tv += 16 * 2.2e-16 * np.linalg.norm(ref[3:])
+            t.trans(2)
+        except Exception as e:
+            t.fail("jpl/scales/raises", clause, case, "a state", repr(e), f"{names.get(a)} -> {names.get(b)} {scale}")
+            return
+        got = np.array(x, dtype=float)
+        ep = np.max(np.abs(got[:3] - ref[:3]))
+        ev = np.max(np.abs(got[3:] - ref[3:]))
+        ok1 = t.margin("JPL scale labels: position vs chained segments [m over tol]", ep, tp, case)
+        ok2 = t.margin("JPL scale labels: velocity vs chained segments [m/s over tol]", ev, tv, case)
+        if not (ok1 and ok2):
+            t.fail("jpl/scales/" + case["route"], clause, case, ref, got,
+                   f"{names[a]} -> {names[b]} at ({case['mjd']}, {case['sec']}) {scale} after {case['scales'][:case['scales'].index(scale)]}: "
+                   f"|dpos|={ep:.3e} m (tol {tp:.1e}), |dvel|={ev:.3e} m/s")
+            return
+    t.outcome(("scales", case["route"], case["scales"][0]))
+
+
+# ---------------------------------------------------------------------------
+# JplPropagator driven directly, in the stored and in the opposite direction of every segment
+
+
+def check_prop(case, t):
+    from mc.ref import spk_ref
+    from beyond.dates import Date
+    from beyond.env import jpl
+
+    if _G.get("mode") != case["config"]["jpl"]:
+        raise RuntimeError("wrong worker configuration")
+    obj, ctr = case["obj"], case["frame"]
+    names = _G["names"]
+    frames = {f.center.index: f for f in jpl.list_frames()}
+    d = Date(case["mjd"], case["sec"], scale=case["scale"])
+    jd = d.change_scale("TDB").jd
+    direction = "stored" if (ctr, obj) in spk_ref.kernel() else "reversed"
+    clause = "a JplPropagator gives the state of its object relative to the centre of its frame (m, m/s), in either direction of the segment"
+    try:
+        pr = jpl.JplPropagator(frames[obj].center, frames[ctr])
+        o = pr.propagate(d)
+        t.trans()
+    except Exception as e:
+        t.fail(f"jpl/propagator/{direction}/raises", clause, case, "a state", repr(e), f"{names.get(obj)} wrt {names.get(ctr)}")
+        return
+    ref, (tp, tv), _ = _ref_pair(obj, ctr, jd, start=ctr)
+    got = np.array(o, dtype=float)
+    ep = np.max(np.abs(got[:3] - ref[:3]))
+    ev = np.max(np.abs(got[3:] - ref[3:]))
+    ok1 = t.margin("JplPropagator direct: position [m over tol]", ep, tp, case)
+    ok2 = t.margin("JplPropagator direct: velocity [m/s over tol]", ev, tv, case)
+    if o.frame.name != names[ctr]:
+        t.fail("jpl/propagator/frame", "the state is expressed in the propagator's frame", case, names[ctr], o.frame.name)
+    if not (ok1 and ok2):
+        part = "position" if not ok1 else "velocity"
+        t.fail(f"jpl/propagator/{direction}/{part}", clause, case, ref, got,
+               f"{names[obj]} wrt {names[ctr]}: |dpos|={ep:.3e} m, |dvel|={ev:.3e} m/s")
+    t.outcome(("prop", direction))
+
+
 # ---------------------------------------------------------------------------
 
-CHECKS = dict(series=check_series, pair=check_pair, sc=check_spacecraft, config=check_config, hist=check_hist)
+CHECKS = dict(series=check_series, pair=check_pair, sc=check_spacecraft, config=check_config, hist=check_hist,
+              scales=check_scales, prop=check_prop)
 
 
 def check_case(case, t):
@@ -486,6 +584,8 @@ def units(tier, seed):
     for mode in ("pck", "nopck"):
         for c in range(0, nd, per):
             u.append(({"jpl": mode}, dict(part="jpl", tier=tier, config=mode, dates=list(range(c, min(nd, c + per))))))
+        for c in range(2 if tier == "quick" else 4):
+            u.append(({"jpl": mode}, dict(part="scales", tier=tier, config=mode, chunk=c, of=2 if tier == "quick" else 4)))
         for b in HIST_BODIES if tier != "quick" or mode == "pck" else HIST_BODIES[:2]:
             u.append(({"jpl": mode}, dict(part="hist", tier=tier, config=mode, body=b)))
     return u
@@ -500,6 +600,25 @@ def run_unit(p, t):
             for body in ("Sun", "Moon"):
                 check_case(dict(kind="series", body=body, mjd=mjd, sec=sec), t)
         t.sample(dict(kind="series", body="Moon", mjd=ds[0][0], sec=ds[0][1]))
+    elif p["part"] == "scales":
+        import itertools
+
+        mode = {"jpl": p["config"]}
+        ids = spk_ref.bodies()
+        orders = [SCALES, SCALES[::-1]] if p["tier"] == "quick" else [list(x) for x in itertools.permutations(SCALES)][:: 1 if p["config"] == "pck" else 4]
+        k = 0
+        for a in ids:
+            for b in ids:
+                if a == b:
+                    continue
+                k += 1
+                if k % p["of"] != p["chunk"]:
+                    continue
+                for mjd, sec in SCALE_DATES[: 1 if p["tier"] == "quick" else 2]:
+                    for order in orders:
+                        for route in ("pair", "sc"):
+                            check_case(dict(kind="scales", config=mode, target=a, center=b, mjd=mjd, sec=sec, scales=order, route=route), t)
+        t.sample(dict(kind="scales", config=mode, target=499, center=301, mjd=SCALE_DATES[0][0], sec=SCALE_DATES[0][1], scales=SCALES, route="pair"))
     elif p["part"] == "hist":
         mode = {"jpl": p["config"]}
         for script in hist_scripts(p["tier"]):
@@ -517,6 +636,9 @@ def run_unit(p, t):
                 for b in ids:
                     if a != b:
                         check_case(dict(kind="pair", config=mode, target=a, center=b, mjd=mjd, sec=sec, scale=scale), t)
+            for (c_, t_) in sorted(spk_ref.kernel()):
+                check_case(dict(kind="prop", config=mode, obj=t_, frame=c_, mjd=mjd, sec=sec, scale=scale), t)
+                check_case(dict(kind="prop", config=mode, obj=c_, frame=t_, mjd=mjd, sec=sec, scale=scale), t)
             for b in ids:
                 for dr in ("to", "from"):
                     check_case(dict(kind="sc", config=mode, center=b, dir=dr, mjd=mjd, sec=sec, scale=scale), t)
